@@ -8,6 +8,7 @@ for d in seeded/*/; do
   case "$n" in C18*) cs="$ALL,C18";; *) cs="$ALL";; esac
   [ -f "$d/patch.diff" ] || continue
   cp "$d/meta.json" /tmp/meta_$n.json 2>/dev/null || echo '{}' > /tmp/meta_$n.json
-  ./seedeval.py "$n" "$d/patch.diff" "$d/demo.rs" /tmp/meta_$n.json --skip-confirm --checks "$cs" > /tmp/seedeval_$n.log 2>&1
+  skip=$(python3 -c "import json,sys; m=json.load(open('/tmp/meta_$n.json')); c=m.get('evaluation',{}).get('confirm',{}); print('--skip-confirm' if c.get('demo_fails_with_patch') and c.get('demo_passes_without_patch') and c.get('lib_tests_pass_with_patch') else '')")
+  ./seedeval.py "$n" "$d/patch.diff" "$d/demo.rs" /tmp/meta_$n.json $skip --checks "$cs" > /tmp/seedeval_$n.log 2>&1
   echo "$n: $(grep 'detected by' /tmp/seedeval_$n.log)"
 done
